@@ -344,7 +344,19 @@ def _find_structure(fi: FunctionInfo):
             elif t in (f"{dv}!=0", f"{dv}>0", dv, f"{dv}>=1", f"0<{dv}"):
                 first, rest = s.orelse, s.body
     if first is None or not rest:
-        raise AnalysisError(f"the branch on the first round (`{dv} == 0`) was not found")
+        # the first round peeled out of the loop: statements between the bias handling and the loop
+        # that copy the inputs, the loop body being a later round
+        cut = None
+        for k, s in enumerate(pre):
+            t = src_of(s)
+            if (isinstance(s, ast.Assign) and isinstance(s.targets[0], ast.Subscript) and isinstance(s.targets[0].slice, ast.Tuple)) or ".extend(input_features)" in t or "list(range(" in t.replace(" ", ""):
+                cut = k
+                break
+        if cut is None:
+            raise AnalysisError(f"the branch on the first round (`{dv} == 0`) was not found")
+        # keep the statements that define the position used by the first block with the prelude
+        first, rest, pre = pre[cut:], list(o.body), pre[:cut]
+    
     inner = [s for s in rest if isinstance(s, ast.For) and isinstance(s.target, ast.Name) and isinstance(s.iter, ast.Call) and src_of(s.iter.func) == "range"]
     if len(inner) != 1:
         raise AnalysisError("feature loop `for i in range(n)` not found")
@@ -544,7 +556,7 @@ def check_a(ck, repo):
 
 
 SHARED = ["first_copy", "first_index", "first_pos", "feature_loop", "degree_loop", "src_lower", "src_upper", "factor", "dest", "record", "record_first", "step_pos", "close_record", "close_swap", "reset", "bias_True_pos", "bias_False_pos"]
-EXPECT = {"first_copy": "[('0', 'n', 'features')]", "first_index": "[('0', 'n+1')]", "first_pos": "n", "record": "['0']", "record_first": "True", "step_pos": "0", "close_record": "['0']", "close_swap": "True", "reset": "True", "bias_True_pos": "['1']", "bias_False_pos": "['0']", "feature_loop": "0..n", "factor": "i (+1)"}
+EXPECT = {"first_copy": "[('0', 'n', 'features')]", "first_index": "[('0', 'n+1')]", "first_pos": "n", "record": "['0']", "record_first": "True", "step_pos": "0", "close_record": "['0']", "close_swap": "True", "reset": "True", "bias_True_pos": "['1']", "bias_False_pos": "['0']", "feature_loop": "0..n", "factor": "i (+1)", "degree_loop": "0..degree"}
 WHAT = {
     "first_copy": "the first round copies the n input columns / names at the write position",
     "first_index": "the first round records the n+1 consecutive block boundaries P..P+n",
@@ -557,6 +569,7 @@ WHAT = {
     "reset": "boundaries are recorded into a fresh list each round",
     "bias_True_pos": "with the constant column the first block starts at 1",
     "bias_False_pos": "without the constant column the first block starts at 0",
+    "degree_loop": "one round per degree 1..degree, the first one only when degree >= 1 (degree 0 leaves the constant column alone)",
 }
 
 
